@@ -389,9 +389,25 @@ End HashSide4.
 (** * the diff engine decides eqvA (outside K9, ASCII bytes) *)
 
 Definition is_bool (a : atom) : bool := match a with ABool _ => true | _ => false end.
-(* K9 guard: under ignore_numeric_type_changes no bool meets an int / float *)
-Definition k9_ok (F : opts) (a b : atom) : bool :=
-  negb (o_numty F && ((is_bool a && is_num b) || (is_num a && is_bool b))).
+(* K9, EXACTLY: under ignore_numeric_type_changes a bool facing an int / float that the diff
+   engine finds equal to it - _diff_booleans (t1 is the bool) compares with !=, _diff_numbers
+   (t1 is the number) compares the two number_to_string texts at the digits in force (12 by
+   default under this option).  DeepHash never identifies them ('bool:true' / 'number:1...'),
+   so such a pair is where the engines disagree; every OTHER bool / number pair is inside the
+   guard (both engines: different). *)
+Definition k9_digits (F : opts) : N := match o_sig F with Some d => d | None => 12%N end.
+Definition k9_clash (F : opts) (a b : atom) : bool :=
+  o_numty F &&
+  match a, b with
+  | ABool _, (AInt _ | AHalf _) => py_eq a b
+  | (AInt _ | AHalf _), ABool _ =>
+      match dy_of_atom a, dy_of_atom b with
+      | Some x, Some y => pystr_eqb (num_str (k9_digits F) x) (num_str (k9_digits F) y)
+      | _, _ => false
+      end
+  | _, _ => false
+  end.
+Definition k9_ok (F : opts) (a b : atom) : bool := negb (k9_clash F a b).
 (* ASCII bytes (non-ASCII bytes: _diff_str decodes as ASCII, DeepHash as UTF-8) *)
 Definition ascii_atom (a : atom) : bool := match a with ABytes s => is_ascii s | _ => true end.
 
@@ -462,7 +478,14 @@ Proof.
     unfold same_group in Eg.
     destruct a as [|x|z|t|s|s], b as [|y|z'|t'|s'|s']; try discriminate;
       cbn [atom_ty str_like num_like andb orb] in Eg; rewrite ?andb_true_r, ?andb_false_r, ?orb_false_r, ?orb_false_l in Eg; try discriminate.
-    all: try (exfalso; unfold k9_ok in K; rewrite Eg in K; discriminate).
+    all: unfold k9_ok, k9_clash in K; rewrite ?Eg in K; cbn [andb dy_of_atom] in K; apply negb_true_iff in K.
+    (* bool first: _diff_booleans *)
+    1,2: rewrite K, reportF_shared; cbn [akey]; destruct (eff_sig F); split; discriminate.
+    (* number first, bool second: _diff_numbers on the texts *)
+    1,3: unfold diff_numF; cbn [dy_of_atom atom_ty ty_eqb]; rewrite shared_eps, reportF_shared; cbn [akey];
+         unfold eff_sig; unfold k9_digits in K; rewrite Eg; destruct (o_sig F) as [d|];
+         (rewrite negb_eqb_nil by discriminate);
+         (split; [intros E; cbn [app] in E; apply (app_inv_head colon) in E; rewrite E, OptProofsBase.pystr_eqb_refl in K; discriminate|discriminate]).
     + (* int vs half, numty *)
       unfold diff_numF. cbn [dy_of_atom atom_ty ty_eqb]. rewrite shared_eps, reportF_shared. cbn [akey].
       unfold eff_sig. rewrite Eg. destruct (o_sig F) as [d|].
@@ -493,6 +516,24 @@ End DiffSide.
 
 (* ------------------------------------------------------------------ *)
 (** * the two engines on two atoms *)
+
+(* the exact K9 guard is weaker than "no bool meets a number" (the guard of rounds 1-2), strictly:
+   True / 2, True / 1.5 at 0 digits, and False / 0.5 in THAT order are inside it; 1 / True, and
+   0.5 / False at 0 digits in that order (number first: both render as '0') are not *)
+Lemma k9_ok_weaker F a b :
+  negb (o_numty F && ((is_bool a && is_num b) || (is_num a && is_bool b))) = true -> k9_ok F a b = true.
+Proof.
+  unfold k9_ok, k9_clash. destruct (o_numty F); [|reflexivity]. cbn [andb].
+  destruct a, b; cbn [is_bool is_num andb orb negb]; try discriminate; reflexivity.
+Qed.
+Example k9_ok_examples :
+  let Fn := mkOpts false false true None None [] in
+  let Fn0 := mkOpts false false true (Some 0%N) None [] in
+  k9_ok Fn (ABool true) (AInt 2) = true /\ k9_ok Fn (AInt 2) (ABool true) = true /\
+  k9_ok Fn0 (ABool true) (AHalf 3) = true /\ k9_ok Fn0 (AHalf 3) (ABool true) = true /\
+  k9_ok Fn0 (ABool false) (AHalf 1) = true /\ k9_ok Fn0 (AHalf 1) (ABool false) = false /\
+  k9_ok Fn (AInt 1) (ABool true) = false /\ k9_ok Fn (ABool true) (AHalf 2) = false.
+Proof. vm_compute. repeat split; reflexivity. Qed.
 
 Definition atom_guard (F : opts) (a b : atom) : bool :=
   tag_okF F a && tag_okF F b && k9_ok F a b && ascii_atom a && ascii_atom b.
